@@ -170,7 +170,7 @@ def synth(name, rng, n):
         '_address': lambda: (P([1, 77]), P([1, 26, 27, 52, 702, 703, 16384]), *P([(), ('1',), ('4',), ('2', 'False'), ('3', 'True', 'Sh')])),
         '_sum': lambda: ([P(scal) for _ in range(4)],), '_average': lambda: ([P(NUMS + [B, 'x']) for _ in range(3)],),
         '_min': lambda: ([P(NUMS + ['x', '#N/A', B]) for _ in range(3)],), '_max': lambda: ([P(NUMS + ['x', '#REF!', B]) for _ in range(3)],),
-        '_count': lambda: ([[P(scal)], [P(scal)]], [P(scal), '3'], [P(scal)]), '_count_blank': lambda: ([P(scal + ['#N/A']) for _ in range(4)],),
+        '_count': lambda: ([[P(scal)], [P(scal)]], [P(scal), '3'], P([[P(scal)], [P(scal), [1, 2, 'x']], [[4, 5.5]], [COL], [P(scal), P(scal)], [[1, [2, [3]]]]])), '_count_blank': lambda: ([P(scal + ['#N/A']) for _ in range(4)],),
         '_and': lambda: ([P(scal) for _ in range(3)],), '_or': lambda: ([P(scal) for _ in range(3)],),
         '_ifs': lambda: ([P([True, False, 0, 1]), P(scal), P([True, False]), P(scal + ['#N/A'])],),
         '_iferror': lambda: (P([lambda: 1, lambda: 1 / 0, lambda: '#N/A', lambda: 'x']), P([7, 'fb'])),
